@@ -45,7 +45,7 @@ Definition used_here (cfg : config) (w : world) (a : action) (i : iobs) : list (
   end.
 
 Definition ghost_step (cfg : config) (g : ghost) (w : world) (a : action) (i : iobs) : ghost :=
-  mkGhost (g_mails g ++ io_mails i) (g_smss g ++ io_smss i) (g_used g ++ used_here cfg w a i).
+  mkGhost (g_mails g ++ io_mails i) (g_smss g ++ io_smss i ++ io_sms_tried i) (g_used g ++ used_here cfg w a i).
 
 Definition resync (w' : world) (a : action) (i : iobs) : world :=
   let b := action_browser a in
